@@ -319,11 +319,38 @@ def content_classes(w):
     return [cls.setdefault((t.values.tobytes(), str(t.values.dtype.itemsize)), len(cls)) for t in w.tens]
 
 
+WITNESS_SIZES = {"acc": "Ethos_U55_128", "tables": [[7, "u8x256"], [7, "i32x256"]], "passes": [0, 1],
+                 "cmds": [["dma", 0, 0], ["stripe", 0], ["dma", 1, 1], ["stripe", 1]], "gen": "witness_sizes"}
+WITNESS_REASSIGNED = {"acc": "Ethos_U55_128", "tables": [[1, "u8x256"], [2, "u8x256"], [3, "u32x512"]], "passes": [0, 1, 2],
+                      "cmds": [["dma", 0, 0], ["stripe", 0], ["dma", 1, 1], ["stripe", 1], ["dma", 0, 0], ["stripe", 0], ["dma", 2, 2],
+                               ["stripe", 2], ["dma", 1, 1], ["stripe", 1]], "gen": "witness_reassigned"}
+
+
+def probe(m):
+    """Which lut.py is under test: (widthAware, sticky) of Model/LutState.lean `Ctx`, found by running the two witnesses of
+    Props/C03LutState.lean on the real code: does get_equivalent take the 1 KiB int32 table for the 256-byte uint8 table with the
+    same numbers (code as it stands) or not (repair C03-10); is table 1 of the second witness placed in slot 0 the second time
+    (code as it stands) or again in slot 1 (repair C03-11). Everything else is then compared with the model of that variant;
+    the known findings are only accepted for the variant that has them."""
+    wa = sticky = 0
+    try:
+        r1 = run_real(WITNESS_SIZES, m)
+        wa = 0 if any(ln.startswith("eq [0@") and ln.endswith(" 1 -> 0") for ln in r1["log"]) else 1
+        r2 = run_real(WITNESS_REASSIGNED, m)
+        sticky = 1 if (r2["err"] is None and r2["addr"][1] == r2["lut_start"] + 256) else 0
+    except Exception:
+        pass
+    return wa, sticky
+
+
+VARIANT = (0, 0)
+
+
 def pass_request(case, real, content, pass_has_lut):
     tabs = " ".join(f"{real['vals'][i]}:{real['sizes'][i]}:{content[i]}" for i in range(len(case["tables"])))
     ps = " ".join(f"{1 if pass_has_lut[i] else 0}:{'-' if t is None else t}" for i, t in enumerate(case["passes"]))
     cs = " ".join(f"d.{c[1]}.{c[2]}" if c[0] == "dma" else (f"s.{c[1]}" if c[0] == "stripe" else "o") for c in case["cmds"])
-    return f"lutpass {real['lut_start']} {real['lut_size']} {real['reserved']} T {tabs} P {ps} C {cs}"
+    return f"lutpass {real['lut_start']} {real['lut_size']} {real['reserved']} {VARIANT[0]} {VARIANT[1]} T {tabs} P {ps} C {cs}"
 
 
 def spec_request(case, real, content, m):
@@ -368,11 +395,8 @@ def run_stream(ck, m, n_cases):
     rng = ck.rng
     cases = []
     # deterministic head: the two witnesses of Props/C03LutState and the streams of test_lut.py
-    cases.append({"acc": "Ethos_U55_128", "tables": [[7, "u8x256"], [7, "i32x256"]], "passes": [0, 1],
-                  "cmds": [["dma", 0, 0], ["stripe", 0], ["dma", 1, 1], ["stripe", 1]], "gen": "witness_sizes"})
-    cases.append({"acc": "Ethos_U55_128", "tables": [[1, "u8x256"], [2, "u8x256"], [3, "u32x512"]], "passes": [0, 1, 2],
-                  "cmds": [["dma", 0, 0], ["stripe", 0], ["dma", 1, 1], ["stripe", 1], ["dma", 0, 0], ["stripe", 0], ["dma", 2, 2],
-                           ["stripe", 2], ["dma", 1, 1], ["stripe", 1]], "gen": "witness_reassigned"})
+    cases.append(dict(WITNESS_SIZES))
+    cases.append(dict(WITNESS_REASSIGNED))
     for acc in ACCS:
         t2k = [[0, "u8x256"], [1, "u8x256"], [2, "u8x256"], [1, "u8x256"], [2, "u8x256"], [5, "i32x512"], [6, "i32x512"], [1, "u8x256"]]
         t1k = [[0, "u8x256"], [1, "u8x256"], [2, "i32x256"], [1, "u8x256"], [2, "i32x256"], [5, "i32x256"], [0, "u8x256"], [2, "i32x256"]]
@@ -429,7 +453,7 @@ def run_stream(ck, m, n_cases):
         elif (r["err"] is None) != (a["status"] == "ok"):
             same_out = False
         agree = same_log and same_out
-        hyp = {k: a.get(k) for k in ("stable", "eqbytes", "origok", "agree", "sizes")}
+        hyp = {k: a.get(k) for k in ("stable", "eqbytes", "origok", "agree", "sizes", "dmaown")}
         ndrop = sum(1 for ln in real_log if ln.startswith("eq ") and not ln.endswith("-> -"))
         nevict = 0
         for ln in real_log:
@@ -455,17 +479,22 @@ def run_stream(ck, m, n_cases):
                   "model_answer": a["raw"][:3000], "model_request": rq, "spec_request": sq, "spec_verdict": s,
                   "how_to_replay": "harness/lutstate_lib.run_real(case, load_repo_mods()) runs the real lut.optimize_high_level_cmd_stream "
                                    "on objects built from the repo's classes; the two requests go to lean/.lake/build/bin/drv"}
-        if spec_bad and hyp.get("origok") == "1":
+        if spec_bad and hyp.get("origok") == "1" and hyp.get("dmaown") == "1":
             ck.count("lutstate_spec_rejects_real_stream")
+            ck.count(f"lutstate_spec_rejects_eqbytes{hyp.get('eqbytes')}_stable{hyp.get('stable')}_agree{int(agree)}")
             key = None
-            if agree and hyp.get("eqbytes") == "0":
+            if agree and VARIANT[0] == 0 and hyp.get("eqbytes") == "0":
                 key = KEY_WIDTH
-            elif agree and hyp.get("stable") == "0":
+            elif agree and VARIANT[1] == 0 and hyp.get("stable") == "0":
                 key = KEY_REASSIGN
             what = ("table window (function level, lut.optimize_high_level_cmd_stream): the stream left by the pass reads wrong bytes: "
                     + s[:400] + f" [generator {c['gen']}, {c['acc']}; model {'=' if agree else '!='} code]")
-            if ck.violation(what, replay, found_input=True, key=key):
+            if key is not None or found < 6:        # (the pipeline level of the check shares the list of 20 violations)
+                if ck.violation(what, replay, found_input=True, key=key):
+                    found += 1
+            else:
                 found += 1
+                ck.count("lutstate_further_failing_inputs_not_listed")
         if agree and r["err"] is None and (a.get("spec") == "0") != (not spec_bad):
             disagreements.append(("the Spec verdict on the model's final stream and on the real final stream differ although calls and "
                                   "decisions agree (index / DMA destination programmed by high_level_command_to_npu_op?)", replay))
@@ -546,7 +575,7 @@ def method_stream(ck, m, n_calls):
                 [j for j in range(len(pool)) if pool[j][1] in {pool[i][1] for i, _ in entries}])
             res = st.get_equivalent(pool[probe][0])
             reals.append("-" if res is None else str(tid_of[id(res)]))
-            reqs.append(f"luteq S {fmt(entries)} V {pool[probe][1]}")
+            reqs.append(f"luteq S {fmt(entries)} V {pool[probe][1]} {pool[probe][2]} {VARIANT[0]}")
             meta.append(("get_equivalent", valid, entries, probe))
         elif r < 0.55:
             step = rng.choice([256, 256, 512, 1024, 2048, 2048, 16, 100, 0, 4096])
@@ -604,9 +633,12 @@ def method_stream(ck, m, n_calls):
         for (rq, re_, me, replay), verdict in zip(bad_puts, ck.model(dreqs)):
             if verdict != "ok":
                 replay["spec_verdict"] = verdict
-                if ck.violation("LUTState.put on a list of disjoint tables returns a list in which two tables share bytes "
-                                f"(resident_tables_disjoint): {verdict[:200]}; list {rq[9:200]}", replay, found_input=True):
-                    found += 1
+                if found < 3:
+                    ck.violation("LUTState.put on a list of disjoint tables returns a list in which two tables share bytes "
+                                 f"(resident_tables_disjoint): {verdict[:200]}; list {rq[9:200]}", replay, found_input=True)
+                else:
+                    ck.count("lutstate_further_failing_inputs_not_listed")
+                found += 1
     return len(reqs), disagreements, found
 
 
@@ -615,10 +647,14 @@ def run_all(ck):
     import common
     common.setup_repo_path()
     m = load_repo_mods()
+    global VARIANT
+    VARIANT = probe(m)
+    ck.count(f"lutstate_variant_widthaware{VARIANT[0]}_sticky{VARIANT[1]}")
     n_pass = 12000 if ck.thorough else 1500
     n_meth = 20000 if ck.thorough else 3000
     cases, dis1, found1, nontrivial = run_stream(ck, m, n_pass)
     ncalls, dis2, found2 = method_stream(ck, m, n_meth)
+    nnet = network_witness(ck)
     if (dis1 or dis2) and not (found1 or found2):
         what, replay = (dis1 + dis2)[0]
         ck.violation(f"{what} ({len(dis1) + len(dis2)} disagreements; the byte-level Spec accepts the real streams / lists of all of them)",
@@ -628,4 +664,73 @@ def run_all(ck):
                         f"(first: {(dis1 + dis2)[0][0][:200]})")
     for c in cases[2:5]:
         ck.sample({"lutstate_case": {k: c[k] for k in ("acc", "tables", "passes", "cmds")}})
-    return {"lutstate_cases": len(cases), "lutstate_method_calls": ncalls, "lutstate_nontrivial": len(nontrivial)}
+    return {"lutstate_cases": len(cases), "lutstate_method_calls": ncalls, "lutstate_nontrivial": len(nontrivial),
+            "lutstate_network_compilations": nnet, "lutstate_variant": {"widthAware": VARIANT[0], "sticky": VARIANT[1]}}
+
+
+# ------------------------------------------------------------------------------------------------------------------
+# network level: the stream shape behind the known finding KEY_REASSIGN, from real compilations
+
+def cascade_reuse_net(h, w, c, pre):
+    """TANH (its result is also a network output, so it stays outside the cascade) -> LOGISTIC -> TANH with the input and
+    output quantisation of the first TANH (equal table) -> CONV_2D. On a 16-bank configuration the three table operations
+    are elementwise operations of their own; when LOGISTIC, the second TANH and the convolution form a cascade, the first
+    round finds the TANH table resident (DMA dropped, index 0, LOGISTIC table in slot 1), the convolution empties the
+    state, and from the second round on the LOGISTIC table goes to slot 0 and the TANH table to slot 1."""
+    import random
+    import netgen
+    bb = netgen.B(random.Random(5), "lutcascreuse", "int8")
+    if pre:
+        x0 = bb.input([1, h, w, 4])
+        x = bb.conv(x0, c, (3, 3), (1, 1), (1, 1), "SAME", act=0, out_scale=1.0 / 256)
+        bb.t(x).zps = [-128]
+    else:
+        x = bb.input([1, h, w, c], scale=1.0 / 256, zp=-128)
+    y = bb.unary("TANH", x)
+    l1 = bb.unary("LOGISTIC", y)
+    t2 = bb.unary("TANH", l1)
+    o = bb.conv(t2, 4, (3, 3), (1, 1), (1, 1), "SAME", act=0)
+    return bb.finish([y, o])
+
+
+def network_witness(ck):
+    """-> number of compilations. A stream the tagged-memory Spec (Spec/Mem.lean, `streamcheck`) rejects is a violation,
+    under the key of the known finding while lut.py is the variant that has it."""
+    import netgen
+    import pipeline
+    import stream_checks
+    jobs = [((64, 64, 32), False, "ethos-u55-64", ["--optimise", "Performance", "--arena-cache-size", "150000"]),
+            ((64, 64, 32), True, "ethos-u55-32", ["--optimise", "Size"])]
+    if ck.thorough:
+        jobs += [((128, 64, 48), False, "ethos-u55-32", ["--optimise", "Performance", "--arena-cache-size", "60000"]),
+                 ((128, 64, 48), True, "ethos-u55-64", ["--optimise", "Size"]),
+                 ((64, 64, 32), False, "ethos-u55-128", ["--optimise", "Performance", "--arena-cache-size", "150000"]),
+                 ((64, 64, 32), True, "ethos-u65-256", ["--optimise", "Size"])]
+    n = 0
+    for (h, w, c), pre, acc, extra in jobs:
+        net = cascade_reuse_net(h, w, c, pre)
+        opts = ["--accelerator-config", acc] + extra
+        res = pipeline.compile_net(netgen.serialize(net), opts, name="lutcascreuse")
+        n += 1
+        ck.count("lutstate_network_compilations")
+        if res.status != "ok" or res.out_model is None:
+            ck.count("lutstate_network_not_compiled")
+            continue
+        ext, _ = pipeline.extents_from_output(res.out_model)
+        lines = [pipeline.stream_line(art, ext) for art in res.streams]
+        for si, (line, a) in enumerate(zip(lines, ck.model(lines, parallel=False))):
+            ans = stream_checks.parse_answer(a)
+            ncasc = sum(len(getattr(art.sg.schedule, "cascades", {})) for art in res.streams if getattr(art, "sg", None) is not None
+                        and getattr(art.sg, "schedule", None) is not None)
+            ck.count("lutstate_network_cascades", ncasc)
+            if ans["decode"] != "ok":
+                ck.violation(f"lutstate network witness does not decode: {a[:200]}", {"net": net.describe(), "opts": opts, "verdict": a[:600]})
+            elif ans.get("tagged", 0) > 0:
+                ck.count("lutstate_network_streams_rejected")
+                ck.violation("cascade of table-lookup operations behind an operation with an equal table (TANH -> [LOGISTIC -> TANH -> "
+                             f"CONV_2D], {acc} {' '.join(extra)}): {ans['tagged_msgs'][0][:300]}",
+                             {"stream": "lutstate-network", "network": net.describe(), "opts": opts, "stream_index": si, "verdict": a[:1500],
+                              "how_to_replay": "harness/lutstate_lib.cascade_reuse_net(h, w, c, pre) -> netgen.serialize -> "
+                                               "pipeline.compile_net(data, opts) -> pipeline.stream_line -> Lean streamcheck"},
+                             key=KEY_REASSIGN if VARIANT[1] == 0 else None)
+    return n
